@@ -149,6 +149,10 @@ pub fn extract_avc_config(data: &[u8]) -> Option<AvcConfig> {
 
     // INV-302: Both SPS and PPS must be found for valid config
     if let (Some(sps_data), Some(pps_data)) = (sps, pps) {
+        // avcC stores each parameter set behind a 16-bit length; longer ones cannot be carried.
+        if sps_data.len() > usize::from(u16::MAX) || pps_data.len() > usize::from(u16::MAX) {
+            return None;
+        }
         assert_invariant!(
             !sps_data.is_empty() && !pps_data.is_empty(),
             "INV-302: H.264 SPS and PPS must be non-empty",
